@@ -9,7 +9,9 @@ from . import c01
 
 ID = "C08"
 LEVEL = "exploration"
-RULE = ("(a) exhaustive: all multisets of <= 3 types from a finite universe of depth-<=2 IR types, in two pipeline-faithful modes: "
+RULE = ("(a) exhaustive: all multisets of <= 3 types from a finite universe of depth-<=2 IR types, in two pipeline-faithful modes "
+        "plus mode 0 (all multisets of <= 2 types of a 55-type universe that also holds non-normal inputs such as "
+        "Optional[Optional[int]], handed to the public optimize_type() directly, two passes as merge_models does): "
         "mode 1 (36 types without Optional) through merge_field_sets + optimize_type as generate() does, with and without a "
         "variant lacking the field; mode 2 (33 normal-form types incl. Optional-wrapped ones and nested models) as the single "
         "field of three root models that merge_models() merges. Oracle: normal-form predicate on every field type of every "
@@ -40,8 +42,19 @@ U2 = NF_BASE + ["Null"] + [["Optional", x] for x in ["int", "float", "str", "Int
                                                       ["Union", "int", "str"], ["Dict", "int"]]]
 
 
+U0 = U1 + [x for x in U2 if x not in U1] + [
+    ["Optional", ["Optional", "int"]], ["List", ["Optional", ["Optional", "str"]]], ["Optional", ["List", ["Optional", ["Optional", "int"]]]],
+    ["Optional", "Null"], ["Optional", "Unknown"], ["Optional", ["Union", "int", "Null"]], ["Dict", ["Optional", ["Optional", M_A]]],
+    ["Optional", ["Optional", ["Optional", ["Lit", ["a"]]]]],
+    ["Tuple", "int", "str"], ["Tuple", "float", "str"], ["Tuple", ["Union", "int", "float"], "str"], ["Tuple", ["Optional", ["Optional", "int"]], "str"]]
+
+
 def ir_cases(tier):
     out = []
+    # mode 0: arbitrary (also non-normal) types of the universe handed to the public optimize_type() directly, two passes
+    for n in (1, 2):
+        for ms in itertools.combinations_with_replacement(range(len(U0)), n):
+            out.append({"mode": 0, "members": [U0[i] for i in ms]})
     for n in (1, 2, 3):
         for ms in itertools.combinations_with_replacement(range(len(U1)), n):
             for missing in (False, True):
@@ -91,7 +104,18 @@ def check_ir(case):
     sreg_names = list(pl.DEFAULT_SREG)
     sreg = pl.make_sreg(sreg_names)
     g = pl.MetadataGenerator(str_types_registry=sreg)
-    if case["mode"] == 1:
+    if case["mode"] == 0:
+        def run0():
+            ms = [irx.decode(t) for t in members]
+            t = dt.DUnion(*ms) if len(ms) > 1 else ms[0]
+            meta = g.optimize_type(g.optimize_type({"f": t}))
+            reg = pl.ModelRegistry()
+            reg.process_meta_data(meta, model_name="Root")
+            return reg
+        ok, reg = owned(r, "optimize", run0)
+        if not ok:
+            return r
+    elif case["mode"] == 1:
         variants = [{"f": irx.decode(t)} for t in members]
         if case.get("missing"):
             variants.insert(1, {})
@@ -161,8 +185,8 @@ def check_graph(case):
 
 def valid(case):
     if "mode" in case:
-        return case["mode"] in (1, 2) and isinstance(case.get("members"), list) and 1 <= len(case["members"]) <= 3 \
-            and all(m in (U1 if case["mode"] == 1 else U2) for m in case["members"])
+        return case["mode"] in (0, 1, 2) and isinstance(case.get("members"), list) and 1 <= len(case["members"]) <= 3 \
+            and all(m in {0: U0, 1: U1, 2: U2}[case["mode"]] for m in case["members"])
     return c01.valid(case)
 
 
